@@ -260,10 +260,11 @@ def cieIdBytes (e : Endian) (eh : Bool) (f : Format) : Bytes :=
 def versionOk (eh : Bool) (version : Nat) : Bool :=
   if eh then version = 1 else (version = 1 || version = 3 || version = 4)
 
-/-- the return address register field: a `u8` in a version 1 `.debug_frame` CIE (checked), a
-ULEB128 otherwise — *including* version 1 `.eh_frame` CIEs -/
-def raBytes (eh : Bool) (version : Nat) (ra : Reg) : Out Bytes :=
-  if !eh ∧ version = 1 then
+/-- the return address register field: a `u8` in a version 1 CIE of either section (checked:
+`ValueTooLarge` from register 256 on), a ULEB128 from version 3 on
+(`fix: write the .eh_frame CIE return address register as a byte`) -/
+def raBytes (version : Nat) (ra : Reg) : Out Bytes :=
+  if version = 1 then
     if ra.toNat % 256 ≠ ra.toNat then .err .wValueTooLarge else .ok [UInt8.ofNat ra.toNat]
   else .ok (Leb.encodeU ra.toNat)
 
@@ -293,12 +294,12 @@ def cieAugData (e : Endian) (c : WCie) (pos : Nat) : Out Bytes :=
 /-- `CommonInformationEntry::write(w, eh_frame)` with `off = w.len()`: the bytes appended -/
 def cieWrite (m : Mode) (e : Endian) (eh : Bool) (c : WCie) (off : Nat) : Out Bytes :=
   if !versionOk eh c.version then .err .wUnsupportedVersion else do
-    let ra ← raBytes eh c.version c.raReg
+    let ra ← raBytes c.version c.raReg
     let head := cieIdBytes e eh c.format ++ cieFixed c ++ ra
     let aug ← cieAugData e c (off + lenFieldSize c.format + head.length)
     let ins ← instrsWrite c.dataAlign c.instructions
     let body := head ++ aug ++ ins
-    let n ← nopCount m (c.format.wordSize + body.length) c.addressSize
+    let n ← nopCount m (lenFieldSize c.format + body.length) c.addressSize
     let lf ← Ints.writeInitialLength e c.format (body.length + n)
     pure (lf ++ body ++ List.replicate n 0)
 
@@ -345,7 +346,7 @@ def fdeWrite (m : Mode) (e : Endian) (eh : Bool) (off cieOff : Nat) (c : WCie) (
   let aug ← fdeAugData m e c f (base + ptr.length + addrs.length)
   let ins ← fdeInstrsWrite e c.codeAlign c.dataAlign 0 f.instructions
   let body := ptr ++ addrs ++ aug ++ ins
-  let n ← nopCount m (c.format.wordSize + body.length) c.addressSize
+  let n ← nopCount m (lenFieldSize c.format + body.length) c.addressSize
   let lf ← Ints.writeInitialLength e c.format (body.length + n)
   pure (lf ++ body ++ List.replicate n 0)
 
